@@ -38,8 +38,15 @@ def codegen():
     return _imp("pyab_experiment.codegen.python.python_generator")
 
 
-def compile_text(text):
-    """-> ("ok", evaluator) | ("error", exc_type_name, message)"""
+def compile_text(text, strict_warnings=False):
+    """-> ("ok", evaluator) | ("error", exc_type_name, message).  strict_warnings: compile as a host running with warnings as
+    errors would (python -W error): a grammatical experiment is no reason for a warning"""
+    if strict_warnings:
+        import warnings
+
+        with warnings.catch_warnings():
+            warnings.simplefilter("error")
+            return compile_text(text)
     try:
         return ("ok", evaluator_mod().ExperimentEvaluator(text))
     except RecursionError as e:  # pragma: no cover - reported like any failure
